@@ -167,6 +167,15 @@ fn gen_value(r: &mut Rng, key: &str, pol: EmbPolicy, rep: &mut Report) -> Tensor
         let v: Vec<f32> = (0..dim).map(|i| base + (i % 3) as f32).collect();
         rep.hit(&format!("emb.dim{dim}"));
         d.set("_embedding", TensorValue::Vector(v));
+    } else if r.chance(1, 12) {
+        // `_embedding` that is not a dense vector: the router treats the value as carrying no vector
+        let v = match r.below(3) {
+            0 => TensorValue::Sparse(SparseVector::from_dense(&[0.0, 1.0, 0.0, 2.0])),
+            1 => TensorValue::Scalar(ScalarValue::Int(7)),
+            _ => TensorValue::Pointer("emb:a".to_string()),
+        };
+        rep.hit("emb.nonvector");
+        d.set("_embedding", v);
     } else {
         rep.hit("emb.none");
     }
@@ -254,6 +263,12 @@ fn cfg_for(mode: SyncMode, max_size: Option<u64>) -> WalConfig {
     if let Some(m) = max_size {
         c.max_size_bytes = m;
     }
+    c
+}
+fn cfg_of(cc: &ChainCfg) -> WalConfig {
+    let mut c = cfg_for(cc.mode, cc.max_size);
+    c.enable_checksums = cc.checksums;
+    c.verify_on_replay = cc.verify;
     c
 }
 fn mode_str(m: SyncMode) -> String {
@@ -427,6 +442,8 @@ struct DiskState {
     wal: Vec<u8>,
     /// rotated log segments present in the directory (`w.wal.N`), copied as they are
     segments: Vec<(String, Vec<u8>)>,
+    /// a partially written `snap.bin.tmp` left by a crash inside the snapshot step (before the rename)
+    tmp: Option<Vec<u8>>,
 }
 
 fn read_segments(dir: &std::path::Path) -> Vec<(String, Vec<u8>)> {
@@ -450,11 +467,18 @@ fn materialise(ctx: &mut Ctx, ds: &DiskState) -> (PathBuf, PathBuf, Option<PathB
     for (name, b) in &ds.segments {
         std::fs::write(d.join(name), b).unwrap();
     }
-    let sp = ds.snap.as_ref().map(|b| {
+    let mut sp = ds.snap.as_ref().map(|b| {
         let p = d.join("snap.bin");
         std::fs::write(&p, b).unwrap();
         p
     });
+    if let Some(t) = &ds.tmp {
+        std::fs::write(d.join("snap.bin.tmp"), t).unwrap();
+        if sp.is_none() {
+            // no snapshot yet: recovery is given the path the snapshot WOULD have (`path.exists()` is false)
+            sp = Some(d.join("snap.bin"));
+        }
+    }
     (d, wal, sp)
 }
 
@@ -472,6 +496,7 @@ struct CrashInfo<'a> {
     rotated: bool,
     unsynced_ckpt: bool,
     compare_model: bool,
+    bloom: bool,
     script: &'a Value,
 }
 
@@ -479,7 +504,7 @@ struct CrashInfo<'a> {
 /// Returns the matched prefix index (largest) when the oracle is satisfied.
 fn check_recovery(ctx: &mut Ctx, ds: &DiskState, cfg: &WalConfig, exp: &Expect, info: &CrashInfo) -> Option<usize> {
     let (d, wal, sp) = materialise(ctx, ds);
-    let r = TensorStore::recover(&wal, cfg, sp.as_deref());
+    let r = if info.bloom { TensorStore::recover_with_bloom(&wal, cfg, sp.as_deref(), BLOOM_ITEMS, BLOOM_FPR) } else { TensorStore::recover(&wal, cfg, sp.as_deref()) };
     let (imp_ans, img) = match &r {
         Ok(st) => {
             let img = image_of(st);
@@ -492,7 +517,7 @@ fn check_recovery(ctx: &mut Ctx, ds: &DiskState, cfg: &WalConfig, exp: &Expect, 
     };
     drop(r);
     ctx.bind_file(&ds.wal);
-    let model_ans = canon_model_image(&ctx.m.ask(&format!("recover {} {}", ds.snap_name, hex(&ds.wal))));
+    let model_ans = canon_model_image(&ctx.m.ask(&format!("{} {} {}", if info.bloom { "brecover" } else { "recover" }, ds.snap_name, hex(&ds.wal))));
     let key = format!("{}|{}|{}", info.what, ds.wal.len(), imp_ans.len());
     ctx.rep.case(&format!("{}.recover", info.stream), if ds.wal.is_empty() { None } else { Some(&key) });
     let cut_json = || json!({"script": info.script, "crash": info.what, "wal_len": ds.wal.len(), "wal_hex": hex(&ds.wal[..ds.wal.len().min(600)]), "snapshot": ds.snap_name});
@@ -636,7 +661,19 @@ struct ChainCfg {
     resume_full: bool,
     /// compare recovered images with the model (off only for the lossy-snapshot probe)
     compare_model: bool,
+    /// open with `open_durable_with_bloom`, recover with `recover_with_bloom` (model: filter rebuilt from scan)
+    bloom: bool,
+    /// `WalConfig::enable_checksums` (false: the checksum field of every record is 0 = unchecked)
+    checksums: bool,
+    /// `WalConfig::verify_on_replay`
+    verify: bool,
 }
+
+const BASE: ChainCfg = ChainCfg { stream: "", mode: SyncMode::Immediate, max_size: None, every_byte: false, random_cuts: 0, resume_full: false, compare_model: true, bloom: false, checksums: true, verify: true };
+
+/// expected number of items / false-positive rate of the Bloom filter of the bloom streams
+const BLOOM_ITEMS: usize = 64;
+const BLOOM_FPR: f64 = 0.01;
 
 fn cut_points(r: &mut Rng, lo: usize, len: usize, bounds: &[usize], cc: &ChainCfg) -> Vec<usize> {
     let mut s: Vec<usize> = Vec::new();
@@ -666,21 +703,26 @@ fn cut_points(r: &mut Rng, lo: usize, len: usize, bounds: &[usize], cc: &ChainCf
 
 /// Runs up to `epochs.len()` epochs (open/recover → ops → crash). Returns nothing; records in ctx.rep.
 fn run_chain(ctx: &mut Ctx, r: &mut Rng, cc: &ChainCfg, epochs: &[Vec<Op>]) {
-    let script = json!({"mode": mode_str(cc.mode), "max_size": cc.max_size, "epochs": ops_json(epochs)});
-    let cfg = cfg_for(cc.mode, cc.max_size);
+    let script = json!({"mode": mode_str(cc.mode), "max_size": cc.max_size, "bloom": cc.bloom, "enable_checksums": cc.checksums, "verify_on_replay": cc.verify, "epochs": ops_json(epochs)});
+    let cfg = cfg_of(cc);
     let immediate = cc.mode == SyncMode::Immediate;
     let dir = ctx.fresh_dir();
     let wal_path = dir.join("w.wal");
     let snap_path = dir.join("snap.bin");
-    let mut store = match TensorStore::open_durable(&wal_path, cfg.clone()) {
+    let opened = if cc.bloom { TensorStore::open_durable_with_bloom(&wal_path, cfg.clone(), BLOOM_ITEMS, BLOOM_FPR) } else { TensorStore::open_durable(&wal_path, cfg.clone()) };
+    let mut store = match opened {
         Ok(s) => s,
         Err(e) => {
             ctx.rep.note(&format!("open_durable failed: {e}"));
             return;
         },
     };
-    ctx.m.ask(&format!("open {} 0", mode_str(cc.mode)));
+    ctx.m.ask(&format!("open {} 0{}", mode_str(cc.mode), if cc.bloom { " bloom" } else { "" }));
     ctx.m.ask("raw_open -");
+    if cc.bloom { ctx.rep.hit("config.bloom"); }
+    if !cc.checksums { ctx.rep.hit("config.no_checksums"); }
+    if !cc.verify { ctx.rep.hit("config.no_verify"); }
+    if let SyncMode::Batched { max_entries } = cc.mode { if max_entries < 2 { ctx.rep.hit("config.batched01"); } }
     let mut spec: BTreeMap<String, Canon> = BTreeMap::new();
     let mut snap_bytes: Option<Vec<u8>> = None;
     let mut snap_name = "none".to_string();
@@ -843,7 +885,7 @@ fn run_chain(ctx: &mut Ctx, r: &mut Rng, cc: &ChainCfg, epochs: &[Vec<Op>]) {
                     ctx.rep.hit("op.checkpoint");
                     let wal_pre_call = std::fs::read(&wal_path).unwrap_or_default();
                     let segs_before = read_segments(&dir);
-                    let old = DiskState { snap: snap_bytes.clone(), snap_name: snap_name.clone(), wal: wal_pre_call.clone(), segments: segs_before.clone() };
+                    let old = DiskState { snap: snap_bytes.clone(), snap_name: snap_name.clone(), wal: wal_pre_call.clone(), segments: segs_before.clone(), tmp: None };
                     // Observe (not assume) what is on disk when the snapshot step starts: a checkpoint
                     // whose snapshot cannot be written stops right after its first step (fsync of the
                     // log), leaving the log as the snapshot step would find it.
@@ -885,15 +927,22 @@ fn run_chain(ctx: &mut Ctx, r: &mut Rng, cc: &ChainCfg, epochs: &[Vec<Op>]) {
                     let all_now = prefixes.len() - 1;
                     let full: Vec<Vec<String>> = prefixes.clone();
                     // c0: crash before the log is fsynced (what was on disk before the call)
-                    let info0 = CrashInfo { stream: cc.stream, what: format!("epoch {ei} checkpoint@op{oi}: before fsync"), prev_torn, rotated: rotated_any, unsynced_ckpt: false, compare_model: cc.compare_model, script: &script };
+                    let info0 = CrashInfo { stream: cc.stream, what: format!("epoch {ei} checkpoint@op{oi}: before fsync"), prev_torn, rotated: rotated_any, unsynced_ckpt: false, compare_model: cc.compare_model, bloom: cc.bloom, script: &script };
                     let fl0 = if immediate { all_now } else { floor_ops };
                     check_recovery(ctx, &old, &cfg, &Expect { prefixes: &full, floor: fl0 }, &info0);
                     ctx.rep.hit("ckpt_state.before_fsync");
                     // c0b: log fsynced, old snapshot still in place: everything issued is acknowledged
-                    let synced_old = DiskState { snap: snap_bytes.clone(), snap_name: snap_name.clone(), wal: wal_before.clone(), segments: segs_before.clone() };
-                    let info0b = CrashInfo { stream: cc.stream, what: format!("epoch {ei} checkpoint@op{oi}: log fsynced, before snapshot"), prev_torn, rotated: rotated_any, unsynced_ckpt: !issued_records_on_disk, compare_model: cc.compare_model, script: &script };
+                    let synced_old = DiskState { snap: snap_bytes.clone(), snap_name: snap_name.clone(), wal: wal_before.clone(), segments: segs_before.clone(), tmp: None };
+                    let info0b = CrashInfo { stream: cc.stream, what: format!("epoch {ei} checkpoint@op{oi}: log fsynced, before snapshot"), prev_torn, rotated: rotated_any, unsynced_ckpt: !issued_records_on_disk, compare_model: cc.compare_model, bloom: cc.bloom, script: &script };
                     check_recovery(ctx, &synced_old, &cfg, &Expect { prefixes: &full, floor: all_now }, &info0b);
                     ctx.rep.hit("ckpt_state.before_snapshot");
+                    // c0c: crash INSIDE the snapshot step: the temp file is partly written, not yet renamed over
+                    // the snapshot path (recovery must not look at it; with no earlier snapshot it is given a
+                    // snapshot path that does not exist)
+                    let partial_tmp = DiskState { snap: snap_bytes.clone(), snap_name: snap_name.clone(), wal: wal_before.clone(), segments: segs_before.clone(), tmp: Some(new_snap[..new_snap.len() / 2].to_vec()) };
+                    let info0c = CrashInfo { stream: cc.stream, what: format!("epoch {ei} checkpoint@op{oi}: log fsynced, snapshot temp file half written"), prev_torn, rotated: rotated_any, unsynced_ckpt: !issued_records_on_disk, compare_model: cc.compare_model, bloom: cc.bloom, script: &script };
+                    check_recovery(ctx, &partial_tmp, &cfg, &Expect { prefixes: &full, floor: all_now }, &info0c);
+                    ctx.rep.hit("ckpt_state.partial_snapshot_tmp");
                     // c1..c3: snapshot in place, marker absent / partial / complete
                     let mut mcuts: Vec<usize> = if ctx.thorough { (0..=marker.len()).collect() } else { vec![0, 1, 3, 4, 7, 8, 9, marker.len() - 1, marker.len()] };
                     mcuts.sort();
@@ -902,7 +951,7 @@ fn run_chain(ctx: &mut Ctx, r: &mut Rng, cc: &ChainCfg, epochs: &[Vec<Op>]) {
                     for mc in mcuts {
                         let mut w = wal_before.clone();
                         w.extend_from_slice(&marker[..mc.min(marker.len())]);
-                        let ds = DiskState { snap: Some(new_snap.clone()), snap_name: new_name.clone(), wal: w, segments: segs_before.clone() };
+                        let ds = DiskState { snap: Some(new_snap.clone()), snap_name: new_name.clone(), wal: w, segments: segs_before.clone(), tmp: None };
                         let info = CrashInfo {
                             stream: cc.stream,
                             what: format!("epoch {ei} checkpoint@op{oi}: snapshot in place, {mc}/{} marker bytes", marker.len()),
@@ -910,6 +959,7 @@ fn run_chain(ctx: &mut Ctx, r: &mut Rng, cc: &ChainCfg, epochs: &[Vec<Op>]) {
                             rotated: rotated_any,
                             unsynced_ckpt: !issued_records_on_disk,
                             compare_model: cc.compare_model,
+                            bloom: cc.bloom,
                             script: &script,
                         };
                         check_recovery(ctx, &ds, &cfg, &Expect { prefixes: &full, floor: all_now }, &info);
@@ -917,13 +967,14 @@ fn run_chain(ctx: &mut Ctx, r: &mut Rng, cc: &ChainCfg, epochs: &[Vec<Op>]) {
                         states.push((ds, mc > 0 && mc < marker.len()));
                     }
                     // c4: truncated
-                    let ds4 = DiskState { snap: Some(new_snap.clone()), snap_name: new_name.clone(), wal: Vec::new(), segments: read_segments(&dir) };
-                    let info4 = CrashInfo { stream: cc.stream, what: format!("epoch {ei} checkpoint@op{oi}: log truncated"), prev_torn, rotated: false, unsynced_ckpt: false, compare_model: cc.compare_model, script: &script };
+                    let ds4 = DiskState { snap: Some(new_snap.clone()), snap_name: new_name.clone(), wal: Vec::new(), segments: read_segments(&dir), tmp: None };
+                    let info4 = CrashInfo { stream: cc.stream, what: format!("epoch {ei} checkpoint@op{oi}: log truncated"), prev_torn, rotated: false, unsynced_ckpt: false, compare_model: cc.compare_model, bloom: cc.bloom, script: &script };
                     check_recovery(ctx, &ds4, &cfg, &Expect { prefixes: &full, floor: all_now }, &info4);
                     ctx.rep.hit("ckpt_state.after_truncate");
                     states.push((ds4, false));
                     states.push((old, false));
                     states.push((synced_old, false));
+                    states.push((partial_tmp, false));
                     snap_bytes = Some(new_snap);
                     snap_name = new_name;
                     rotated_any = false;
@@ -1005,13 +1056,13 @@ fn run_chain(ctx: &mut Ctx, r: &mut Rng, cc: &ChainCfg, epochs: &[Vec<Op>]) {
                 } else {
                     floor_ops
                 };
-                let ds = DiskState { snap: snap_bytes.clone(), snap_name: snap_name.clone(), wal: file[..n].to_vec(), segments: read_segments(&dir) };
+                let ds = DiskState { snap: snap_bytes.clone(), snap_name: snap_name.clone(), wal: file[..n].to_vec(), segments: read_segments(&dir), tmp: None };
                 let is_torn = {
                     let (_, end) = ctx.bind_file(&ds.wal);
                     end == "torn"
                 };
                 ctx.rep.hit(if is_torn { "cut.torn_tail" } else { "cut.record_boundary" });
-                let info = CrashInfo { stream: cc.stream, what: format!("epoch {ei}: log cut at byte {n} of {}", file.len()), prev_torn, rotated: rotated_any, unsynced_ckpt: false, compare_model: cc.compare_model, script: &script };
+                let info = CrashInfo { stream: cc.stream, what: format!("epoch {ei}: log cut at byte {n} of {}", file.len()), prev_torn, rotated: rotated_any, unsynced_ckpt: false, compare_model: cc.compare_model, bloom: cc.bloom, script: &script };
                 let k = check_recovery(ctx, &ds, &cfg, &Expect { prefixes: &prefixes, floor }, &info);
                 results.push((n, k, is_torn));
             }
@@ -1026,7 +1077,7 @@ fn run_chain(ctx: &mut Ctx, r: &mut Rng, cc: &ChainCfg, epochs: &[Vec<Op>]) {
             };
             match pick.1 {
                 None => return, // property already violated on this state; reported
-                Some(k) => (DiskState { snap: snap_bytes.clone(), snap_name: snap_name.clone(), wal: file[..pick.0].to_vec(), segments: read_segments(&dir) }, k, pick.2),
+                Some(k) => (DiskState { snap: snap_bytes.clone(), snap_name: snap_name.clone(), wal: file[..pick.0].to_vec(), segments: read_segments(&dir), tmp: None }, k, pick.2),
             }
         };
         if ei + 1 == epochs.len() {
@@ -1047,13 +1098,22 @@ fn run_chain(ctx: &mut Ctx, r: &mut Rng, cc: &ChainCfg, epochs: &[Vec<Op>]) {
                 let _ = std::fs::remove_file(&snap_path);
             },
         }
-        let sp = resume_ds.snap.as_ref().map(|_| snap_path.as_path());
-        store = match TensorStore::recover(&wal_path, &cfg, sp) {
+        let tmp_path = dir.join("snap.bin.tmp");
+        match &resume_ds.tmp {
+            Some(t) => std::fs::write(&tmp_path, t).unwrap(),
+            None => {
+                let _ = std::fs::remove_file(&tmp_path);
+            },
+        }
+        // with a leftover temp file and no snapshot, recovery gets the (non-existent) snapshot path
+        let sp = if resume_ds.snap.is_some() || resume_ds.tmp.is_some() { Some(snap_path.as_path()) } else { None };
+        let reopened = if cc.bloom { TensorStore::recover_with_bloom(&wal_path, &cfg, sp, BLOOM_ITEMS, BLOOM_FPR) } else { TensorStore::recover(&wal_path, &cfg, sp) };
+        store = match reopened {
             Ok(s) => s,
             Err(_) => return, // reported by check_recovery
         };
         let repaired = std::fs::metadata(&wal_path).map(|m| m.len()).unwrap_or(0);
-        let ans = ctx.m.ask(&format!("resume {} {}", resume_ds.snap_name, hex(&resume_ds.wal)));
+        let ans = ctx.m.ask(&format!("{} {} {}", if cc.bloom { "bresume" } else { "resume" }, resume_ds.snap_name, hex(&resume_ds.wal)));
         let mlen = ans.split_whitespace().nth(1).unwrap_or("?").to_string();
         ctx.rep.case(&format!("{}.repair_len", cc.stream), Some(&format!("{}|{}", resume_ds.wal.len(), repaired)));
         ctx.rep.compare(&format!("{}.repair_len", cc.stream), || json!({"script": script, "epoch": ei, "wal_len": resume_ds.wal.len()}), &format!("{repaired}"), &mlen);
@@ -1389,6 +1449,7 @@ fn main() {
         "crash_number.1", "crash_number.2", "ckpt_state.before_fsync", "ckpt.unsynced_tail_flushed_by_checkpoint", "ckpt_state.before_snapshot", "ckpt_state.after_snapshot", "ckpt_state.inside_marker",
         "ckpt_state.after_marker", "ckpt_state.after_truncate", "frames.end.clean", "frames.end.torn", "frames.end.bad_crc", "frames.end.undecodable",
         "op.sync", "op.checkpoint", "oracle.recovered_state_is_acked_prefix",
+        "config.bloom", "config.no_checksums", "config.no_verify", "config.batched01", "ckpt_state.partial_snapshot_tmp", "emb.nonvector", "crash_number.3",
     ]
     .iter()
     .map(|s| s.to_string())
@@ -1400,13 +1461,13 @@ fn main() {
         let mut r = rng.fork("probes");
         // KNOWN FINDING tensor_store.wal.rotate/acked_entries_not_replayed: max_size_bytes=220, 14 Immediate
         // puts: acknowledged entries leave the file recovery reads
-        let cc = ChainCfg { stream: "probe_rotation", mode: SyncMode::Immediate, max_size: Some(220), every_byte: false, random_cuts: 2, resume_full: false, compare_model: true };
+        let cc = ChainCfg { stream: "probe_rotation", mode: SyncMode::Immediate, max_size: Some(220), every_byte: false, random_cuts: 2, resume_full: false, compare_model: true, ..BASE };
         let eps = vec![(0..14).map(|i| Op::Put(format!("k{i}"), td("v"))).collect::<Vec<_>>()];
         run_chain(&mut ctx, &mut r, &cc, &eps);
 
         // regression cases of the FIXED classes (each of them violated the property before its fix)
         // bf541438 wal.open/append_after_torn_tail: torn tail, then acknowledged writes, then crash again
-        let cc = ChainCfg { stream: "chain_directed", mode: SyncMode::Immediate, max_size: None, every_byte: true, random_cuts: 0, resume_full: false, compare_model: true };
+        let cc = ChainCfg { stream: "chain_directed", mode: SyncMode::Immediate, max_size: None, every_byte: true, random_cuts: 0, resume_full: false, compare_model: true, ..BASE };
         let eps = vec![
             vec![Op::Put("a".into(), td("v1")), Op::Put("emb:a".into(), tdv("e", 1.0, 3))],
             vec![Op::Put("b".into(), td("v2")), Op::Del("a".into())],
@@ -1417,7 +1478,7 @@ fn main() {
         }
         // 197dc525 checkpoint/unsynced_tail_replayed_over_snapshot: checkpoint with an unsynced tail
         for mode in [SyncMode::Manual, SyncMode::Batched { max_entries: 5 }] {
-            let cc = ChainCfg { stream: "probe_ckpt_unsynced", mode, max_size: None, every_byte: false, random_cuts: 2, resume_full: false, compare_model: true };
+            let cc = ChainCfg { stream: "probe_ckpt_unsynced", mode, max_size: None, every_byte: false, random_cuts: 2, resume_full: false, compare_model: true, ..BASE };
             let eps = vec![
                 vec![Op::Put("k".into(), td("v1")), Op::Sync, Op::Put("k".into(), td("v2")), Op::Put("j".into(), td("w")), Op::Ckpt, Op::Put("k".into(), td("v3")), Op::Ckpt],
                 vec![Op::Put("j".into(), td("w2")), Op::Ckpt, Op::Del("k".into())],
@@ -1425,7 +1486,7 @@ fn main() {
             run_chain(&mut ctx, &mut r, &cc, &eps);
         }
         // e374d74b recover/stale_entity_id_embedding: a later emb: key without vector read a stale embedding
-        let cc = ChainCfg { stream: "probe_stale_entity_id", mode: SyncMode::Immediate, max_size: None, every_byte: false, random_cuts: 0, resume_full: true, compare_model: true };
+        let cc = ChainCfg { stream: "probe_stale_entity_id", mode: SyncMode::Immediate, max_size: None, every_byte: false, random_cuts: 0, resume_full: true, compare_model: true, ..BASE };
         let eps = vec![
             vec![Op::Put("emb:a".into(), td("a")), Op::Put("emb:b".into(), tdv("b", 7.0, 384))],
             vec![Op::Put("emb:c".into(), td("c"))],
@@ -1442,13 +1503,13 @@ fn main() {
         run_chain(&mut ctx, &mut r, &cc, &eps);
         // 6b9ec7ce put_durable/embedding_record_replayed_without_its_metadata_record: a put on an existing
         // emb: key is two records (EmbeddingSet, MetadataSet): cut between them
-        let cc = ChainCfg { stream: "probe_torn_put", mode: SyncMode::Immediate, max_size: None, every_byte: false, random_cuts: 0, resume_full: true, compare_model: true };
+        let cc = ChainCfg { stream: "probe_torn_put", mode: SyncMode::Immediate, max_size: None, every_byte: false, random_cuts: 0, resume_full: true, compare_model: true, ..BASE };
         let eps = vec![vec![Op::Put("emb:a".into(), tdv("one", 1.0, 384)), Op::Put("emb:a".into(), tdv("two", 2.0, 384))]];
         run_chain(&mut ctx, &mut r, &cc, &eps);
         // 6b9ec7ce recover/logged_entity_id_belongs_to_another_key: a non-emb: key that carried a vector kept
         // its index entry on delete (live) but lost it on replay, so the writer's ids and replay's differed
         // (since "only emb: keys get an entity-index entry" such a key has no id at all; the case stays)
-        let cc = ChainCfg { stream: "probe_index_divergence", mode: SyncMode::Immediate, max_size: None, every_byte: false, random_cuts: 0, resume_full: true, compare_model: true };
+        let cc = ChainCfg { stream: "probe_index_divergence", mode: SyncMode::Immediate, max_size: None, every_byte: false, random_cuts: 0, resume_full: true, compare_model: true, ..BASE };
         let eps = vec![vec![
             Op::Put("a".into(), tdv("one", 1.0, 384)),
             Op::Del("a".into()),
@@ -1459,7 +1520,7 @@ fn main() {
         run_chain(&mut ctx, &mut r, &cc, &eps);
         // same shifted ids, then delete_durable of an emb: key: its EmbeddingDelete carries the writer's id,
         // which on replay is the id of emb:y (harmless: get falls back to the metadata slab)
-        let cc = ChainCfg { stream: "probe_index_divergence_delete", mode: SyncMode::Immediate, max_size: None, every_byte: false, random_cuts: 0, resume_full: true, compare_model: true };
+        let cc = ChainCfg { stream: "probe_index_divergence_delete", mode: SyncMode::Immediate, max_size: None, every_byte: false, random_cuts: 0, resume_full: true, compare_model: true, ..BASE };
         let eps = vec![
             vec![
                 Op::Put("a".into(), tdv("one", 1.0, 384)),
@@ -1490,7 +1551,7 @@ fn main() {
             vec![Op::Del("user:1".into()), Op::Put("emb:z".into(), tdv("z", 5.0, 384)), Op::Put("a".into(), tdv("three", 6.0, 384)), Op::Del("emb:y".into())],
             vec![Op::Del("a".into()), Op::Put("b".into(), td("b"))],
         ];
-        let cc = ChainCfg { stream: "probe_non_emb_vector_chain", mode: SyncMode::Immediate, max_size: None, every_byte: false, random_cuts: 4, resume_full: true, compare_model: true };
+        let cc = ChainCfg { stream: "probe_non_emb_vector_chain", mode: SyncMode::Immediate, max_size: None, every_byte: false, random_cuts: 4, resume_full: true, compare_model: true, ..BASE };
         run_chain(&mut ctx, &mut r, &cc, &eps);
         let eps = vec![
             vec![
@@ -1509,17 +1570,43 @@ fn main() {
             vec![Op::Put("a".into(), tdv("three", 6.0, 3)), Op::Del("node:1".into()), Op::Put("emb:z".into(), tdv("z", 5.0, 3)), Op::Ckpt, Op::Del("a".into())],
         ];
         for mode in [SyncMode::Batched { max_entries: 2 }, SyncMode::Batched { max_entries: 3 }, SyncMode::Manual] {
-            let cc = ChainCfg { stream: "probe_non_emb_vector_chain", mode, max_size: None, every_byte: false, random_cuts: 4, resume_full: false, compare_model: true };
+            let cc = ChainCfg { stream: "probe_non_emb_vector_chain", mode, max_size: None, every_byte: false, random_cuts: 4, resume_full: false, compare_model: true, ..BASE };
             run_chain(&mut ctx, &mut r, &cc, &eps);
         }
         // 384-dim embeddings (tensor-train compressed in the snapshot: within tolerance, not bit-exact)
         // through checkpoints, overwritten and deleted afterwards
-        let cc = ChainCfg { stream: "probe_ckpt_emb384", mode: SyncMode::Immediate, max_size: None, every_byte: false, random_cuts: 0, resume_full: true, compare_model: true };
+        let cc = ChainCfg { stream: "probe_ckpt_emb384", mode: SyncMode::Immediate, max_size: None, every_byte: false, random_cuts: 0, resume_full: true, compare_model: true, ..BASE };
         let eps = vec![
             vec![Op::Put("emb:b".into(), tdv("b", 7.0, 384)), Op::Put("emb:c".into(), tdv("c", 2.0, 384)), Op::Ckpt],
             vec![Op::Put("z".into(), td("z")), Op::Put("emb:c".into(), tdv("c2", 3.0, 384)), Op::Ckpt, Op::Del("emb:b".into())],
             vec![Op::Put("emb:d".into(), td("d"))],
         ];
+        run_chain(&mut ctx, &mut r, &cc, &eps);
+    }
+
+    {
+        let mut r = rng.fork("probes2");
+        // Bloom-filtered store (`open_durable_with_bloom`, `recover_with_bloom`): `get`/`exists` answer NotFound for
+        // a key the filter was not given; recovery rebuilds the filter from scan(""), put_durable adds its key.
+        // Every crash state is recovered WITH a filter; a recovered key the filter hides shows up as a key scan
+        // lists and get rejects (model: BStore, filter without false positives)
+        let eps = vec![
+            vec![Op::Put("a".into(), td("v1")), Op::Put("emb:a".into(), tdv("e", 1.0, 384)), Op::Put("emb:b".into(), tdv("b", 2.0, 3)), Op::Del("a".into()), Op::Put("node:1".into(), td("n"))],
+            vec![Op::Put("b".into(), td("v2")), Op::Del("emb:a".into()), Op::Ckpt, Op::Put("emb:c".into(), td("c")), Op::Put("_cache:x".into(), td("x"))],
+            vec![Op::Put("a".into(), td("v3")), Op::Del("emb:b".into())],
+        ];
+        for resume_full in [true, false] {
+            let cc = ChainCfg { stream: "probe_bloom", mode: SyncMode::Immediate, random_cuts: 3, resume_full, bloom: true, ..BASE };
+            run_chain(&mut ctx, &mut r, &cc, &eps);
+        }
+        // checksums disabled (every record carries checksum 0 = unchecked) / not verified on replay
+        let eps = vec![
+            vec![Op::Put("k".into(), td("v1")), Op::Put("emb:a".into(), tdv("e", 1.0, 3)), Op::Del("k".into())],
+            vec![Op::Put("j".into(), td("w")), Op::Ckpt, Op::Put("k".into(), td("v2"))],
+        ];
+        let cc = ChainCfg { stream: "probe_no_checksums", mode: SyncMode::Immediate, every_byte: true, checksums: false, ..BASE };
+        run_chain(&mut ctx, &mut r, &cc, &eps);
+        let cc = ChainCfg { stream: "probe_no_verify", mode: SyncMode::Immediate, random_cuts: 4, verify: false, ..BASE };
         run_chain(&mut ctx, &mut r, &cc, &eps);
     }
 
@@ -1534,7 +1621,7 @@ fn main() {
         let mut r = rng.fork("chain_immediate");
         let n = if th { 80 } else { 24 };
         for i in 0..n {
-            let cc = ChainCfg { stream: "chain_immediate", mode: SyncMode::Immediate, max_size: None, every_byte: th && i % 3 == 0, random_cuts: if th { 64 } else { 16 }, resume_full: false, compare_model: true };
+            let cc = ChainCfg { stream: "chain_immediate", mode: SyncMode::Immediate, max_size: None, every_byte: th && i % 3 == 0, random_cuts: if th { 64 } else { 16 }, resume_full: false, compare_model: true, ..BASE };
             let ne = 1 + r.below(3) as usize;
             let eps: Vec<Vec<Op>> = (0..ne + 1).map(|_| { let n = 1 + r.below(7) as usize; gen_ops(&mut r, n, EmbPolicy::No384, false, false, &mut ctx.rep) }).collect();
             run_chain(&mut ctx, &mut r, &cc, &eps);
@@ -1545,7 +1632,7 @@ fn main() {
         let mut r = rng.fork("chain_ckpt");
         let n = if th { 60 } else { 20 };
         for i in 0..n {
-            let cc = ChainCfg { stream: "chain_checkpoint", mode: SyncMode::Immediate, max_size: None, every_byte: false, random_cuts: if th { 32 } else { 6 }, resume_full: false, compare_model: true };
+            let cc = ChainCfg { stream: "chain_checkpoint", mode: SyncMode::Immediate, max_size: None, every_byte: false, random_cuts: if th { 32 } else { 6 }, resume_full: false, compare_model: true, ..BASE };
             let ne = 2 + r.below(2) as usize;
             let pol = if i % 2 == 0 { EmbPolicy::No384 } else { EmbPolicy::Any };
             let eps: Vec<Vec<Op>> = (0..ne)
@@ -1568,7 +1655,7 @@ fn main() {
         let n = if th { 72 } else { 24 };
         for i in 0..n {
             let mode = if i % 2 == 0 { SyncMode::Manual } else { SyncMode::Batched { max_entries: 2 + (i % 3) } };
-            let cc = ChainCfg { stream: if i % 2 == 0 { "chain_manual" } else { "chain_batched" }, mode, max_size: None, every_byte: false, random_cuts: if th { 32 } else { 8 }, resume_full: false, compare_model: true };
+            let cc = ChainCfg { stream: if i % 2 == 0 { "chain_manual" } else { "chain_batched" }, mode, max_size: None, every_byte: false, random_cuts: if th { 32 } else { 8 }, resume_full: false, compare_model: true, ..BASE };
             let ne = 2 + r.below(2) as usize;
             let pol = if i % 4 < 2 { EmbPolicy::No384 } else { EmbPolicy::Any };
             let eps: Vec<Vec<Op>> = (0..ne).map(|_| {
@@ -1585,7 +1672,7 @@ fn main() {
         let mut r = rng.fork("chain_emb384");
         let n = if th { 40 } else { 10 };
         for _ in 0..n {
-            let cc = ChainCfg { stream: "chain_emb384", mode: SyncMode::Immediate, max_size: None, every_byte: false, random_cuts: 4, resume_full: false, compare_model: true };
+            let cc = ChainCfg { stream: "chain_emb384", mode: SyncMode::Immediate, max_size: None, every_byte: false, random_cuts: 4, resume_full: false, compare_model: true, ..BASE };
             let eps: Vec<Vec<Op>> = (0..2).map(|_| { let n = 1 + r.below(6) as usize; gen_ops(&mut r, n, EmbPolicy::Any, false, false, &mut ctx.rep) }).collect();
             run_chain(&mut ctx, &mut r, &cc, &eps);
         }
@@ -1598,12 +1685,53 @@ fn main() {
         let n = if th { 60 } else { 16 };
         for i in 0..n {
             let mode = match i % 4 { 0 | 1 => SyncMode::Immediate, 2 => SyncMode::Manual, _ => SyncMode::Batched { max_entries: 3 } };
-            let cc = ChainCfg { stream: "chain_overlay", mode, max_size: None, every_byte: false, random_cuts: if th { 16 } else { 4 }, resume_full: false, compare_model: true };
+            let cc = ChainCfg { stream: "chain_overlay", mode, max_size: None, every_byte: false, random_cuts: if th { 16 } else { 4 }, resume_full: false, compare_model: true, ..BASE };
             let ne = 2 + r.below(2) as usize;
             let eps: Vec<Vec<Op>> = (0..ne).map(|_| {
                 let n = 3 + r.below(7) as usize;
                 let mut v = gen_ops_keys(&mut r, n, OVERLAY_KEYS, EmbPolicy::Any, mode != SyncMode::Immediate, true, &mut ctx.rep);
                 if r.chance(1, 2) { v.push(Op::Ckpt); }
+                v
+            }).collect();
+            run_chain(&mut ctx, &mut r, &cc, &eps);
+        }
+    }
+
+
+    // 7. Bloom-filtered stores through random crash chains (all modes, checkpoints)
+    {
+        let mut r = rng.fork("chain_bloom");
+        let n = if th { 36 } else { 8 };
+        for i in 0..n {
+            let mode = match i % 4 { 0 | 1 => SyncMode::Immediate, 2 => SyncMode::Manual, _ => SyncMode::Batched { max_entries: 2 } };
+            let cc = ChainCfg { stream: "chain_bloom", mode, random_cuts: if th { 12 } else { 4 }, bloom: true, ..BASE };
+            let ne = 2 + r.below(2) as usize;
+            let pol = if i % 2 == 0 { EmbPolicy::No384 } else { EmbPolicy::Any };
+            let eps: Vec<Vec<Op>> = (0..ne).map(|_| {
+                let n = 2 + r.below(6) as usize;
+                let mut v = gen_ops(&mut r, n, pol, mode != SyncMode::Immediate, true, &mut ctx.rep);
+                if r.chance(1, 3) { v.push(Op::Ckpt); }
+                v
+            }).collect();
+            run_chain(&mut ctx, &mut r, &cc, &eps);
+        }
+    }
+    // 8. configurations: checksums off, replay without verification, Batched with max_entries 0 and 1
+    {
+        let mut r = rng.fork("chain_configs");
+        let n = if th { 36 } else { 9 };
+        for i in 0..n {
+            let (stream, mode, checksums, verify) = match i % 3 {
+                0 => ("chain_no_checksums", SyncMode::Immediate, false, true),
+                1 => ("chain_no_verify", if i % 2 == 0 { SyncMode::Manual } else { SyncMode::Immediate }, true, false),
+                _ => ("chain_batched01", SyncMode::Batched { max_entries: (i / 3) % 2 }, true, true),
+            };
+            let cc = ChainCfg { stream, mode, random_cuts: if th { 16 } else { 5 }, checksums, verify, ..BASE };
+            let ne = 2 + r.below(2) as usize;
+            let eps: Vec<Vec<Op>> = (0..ne).map(|_| {
+                let n = 2 + r.below(6) as usize;
+                let mut v = gen_ops(&mut r, n, EmbPolicy::No384, mode != SyncMode::Immediate, true, &mut ctx.rep);
+                if r.chance(1, 3) { v.push(Op::Ckpt); }
                 v
             }).collect();
             run_chain(&mut ctx, &mut r, &cc, &eps);
